@@ -465,7 +465,7 @@ func drainDetaches(e *Env, rule string) {
 		return
 	}
 	var load ssa.Instruction
-	core.InstrsOwn(f, func(in ssa.Instruction) {
+	core.Instrs(f, func(in ssa.Instruction) { // including a swap helper analysed as part of the drain
 		if ld, ok := in.(*ssa.UnOp); ok && ld.Op == token.MUL && fieldNameOf(ld) == "data" && load == nil {
 			load = ld
 		}
@@ -479,8 +479,14 @@ func drainDetaches(e *Env, rule string) {
 		if !ok || fieldNameOf(st.Addr) != "data" {
 			return false
 		}
-		_, isMk := core.Resolve(st.Val).(*ssa.MakeMap)
-		return isMk
+		if _, isMk := core.Resolve(st.Val).(*ssa.MakeMap); isMk {
+			return true
+		}
+		if alts := core.ResolveIn(f, st.Val); len(alts) == 1 {
+			_, isMk := alts[0].(*ssa.MakeMap)
+			return isMk
+		}
+		return false
 	}}).Find()
 	e.R.Check(w == nil, rule, q+":detaches", e.fpos(f), "fresh storage is installed on every path before the old one is returned", "the storage handed to the caller can stay the map's live storage: a later Store shows up in a result already returned, and the next drain hands the same object out again: "+e.trace(w))
 }
